@@ -53,6 +53,12 @@ pub struct Case {
     pub form: u8,
     pub reqs: Vec<Req>,
     pub payload: Blob,
+    /// Some(mask): register through `tonic::transport::Server::builder()` (`add_service`, or
+    /// `add_optional_service(Some)` for odd wrapper kinds; pool members NOT in `reg` whose bit is set in the mask
+    /// are passed as `add_optional_service(None)` in between) and send the requests over a real HTTP/2
+    /// connection on the in-memory pipe
+    #[serde(default)]
+    pub transport: Option<u16>,
 }
 
 // ------------------------------------------------------------------ reference model
@@ -368,8 +374,10 @@ pub fn strategy() -> BoxedStrategy<Case> {
         prop_oneof![4 => Just(0u8), 1 => Just(1u8), 1 => Just(2u8)],
         proptest::collection::vec(path_strategy(), 1..=8),
         prop_oneof![1 => Just(Blob::Hex(String::new())), 3 => crate::infra::blob::small_bytes(12)],
+        proptest::option::weighted(0.02, any::<u16>()),
     )
-        .prop_map(|(subset, wraps, (h, prep), perm, form, paths, payload)| Case {
+        .prop_map(|(subset, wraps, (h, prep), perm, form, paths, payload, transport)| Case {
+            transport,
             reg: subset.iter().map(|i| (*i, wraps[*i as usize])).collect(),
             how: h | if prep { 4 } else { 0 },
             perm,
@@ -464,8 +472,20 @@ macro_rules! pool_handlers {
                 _ => unreachable!("pool index out of range"),
             }
         }
+        /// kind: 1 add_service, 2 add_optional_service(Some(..)), 3 add_optional_service(None)
+        fn register_router(r: TRouter, idx: u8, kind: u8, log: &Log) -> TRouter {
+            match (idx, kind) {
+                $(
+                    ($idx, 1) => r.add_service(pool::$modn::$srvmod::$server::new($h(log.clone()))),
+                    ($idx, 2) => r.add_optional_service(Some(pool::$modn::$srvmod::$server::new($h(log.clone())))),
+                    ($idx, _) => r.add_optional_service(None::<pool::$modn::$srvmod::$server<$h>>),
+                )*
+                _ => unreachable!("pool index out of range"),
+            }
+        }
     };
 }
+type TRouter = tonic::transport::server::Router;
 
 pool_handlers! {
     0 => pool0::s_server::{S, SServer} as H0,
@@ -616,6 +636,106 @@ fn judge(reg: &[(u8, u8)], pq: &str, payload: &[u8], seen: &Seen, near: Near, or
     Ok(())
 }
 
+/// The same requests over a real HTTP/2 connection to `Server::builder()...serve_with_incoming`.
+fn run_transport(c: &Case, reg: &[(u8, u8)], mask: u16, o: &mut Outcome) -> Result<(), Failure> {
+    use crate::infra::net::Net;
+    use crate::infra::rt;
+    o.label("via_transport_router");
+    let log: Log = Default::default();
+    // registration sequence: pool order rotated by `perm`; members of `reg` are added (optional-Some for odd
+    // wrapper kinds), flagged non-members are offered as `None`
+    let n = POOL.len() as u8;
+    let mut seq: Vec<(u8, u8)> = vec![];
+    for k in 0..n {
+        let i = (k + c.perm) % n;
+        if let Some((_, w)) = reg.iter().find(|(j, _)| *j == i) {
+            seq.push((i, if w % 2 == 1 { 2 } else { 1 }));
+        } else if mask & (1 << i) != 0 {
+            seq.push((i, 3));
+        }
+    }
+    o.label_if(seq.iter().any(|(_, k)| *k == 3), "optional_service_none");
+    o.label_if(seq.iter().any(|(_, k)| *k == 2), "optional_service_some");
+    let mut todo: Vec<(String, http::Uri)> = vec![];
+    for r in &c.reqs {
+        for pq in expand(r) {
+            if !pq.starts_with('/') {
+                continue;
+            }
+            let Ok(uri) = http::Uri::try_from(format!("http://pipe.test{pq}")) else { continue };
+            if uri.path() != path_of(&pq) {
+                continue;
+            }
+            todo.push((pq, uri));
+            if todo.len() >= 12 {
+                break;
+            }
+        }
+    }
+    let payload = c.payload.bytes();
+    let (net, incoming) = Net::new(vec![]);
+    let log2 = log.clone();
+    let payload2 = payload.clone();
+    let todo2 = todo.clone();
+    let res = rt::run_virtual(c.perm as u64 + 1, std::time::Duration::from_secs(3600), async move {
+        let mut router: TRouter = tonic::transport::Server::builder().add_routes(Routes::default());
+        for (i, k) in &seq {
+            router = register_router(router, *i, *k, &log2);
+        }
+        let srv = tokio::spawn(async move { router.serve_with_incoming(incoming).await });
+        let (io, _h) = net.open().map_err(|e| format!("open: {e}"))?;
+        let (mut send_req, conn) = h2::client::handshake(io).await.map_err(|e| format!("h2 handshake: {e}"))?;
+        let ct = tokio::spawn(async move {
+            let _ = conn.await;
+        });
+        let mut seen = vec![];
+        for (_, uri) in &todo2 {
+            log2.lock().unwrap().clear();
+            let req = http::Request::builder().method("POST").uri(uri.clone()).header("content-type", "application/grpc").header("te", "trailers").body(()).unwrap();
+            send_req = send_req.ready().await.map_err(|e| format!("ready: {e}"))?;
+            let (resp, mut stream) = send_req.send_request(req, false).map_err(|e| format!("send_request: {e}"))?;
+            stream.send_data(Bytes::from(wire::frame(0, &payload2)), true).map_err(|e| format!("send_data: {e}"))?;
+            let resp = resp.await.map_err(|e| format!("response: {e}"))?;
+            let (parts, mut body) = resp.into_parts();
+            let mut data = vec![];
+            while let Some(ch) = body.data().await {
+                let b = ch.map_err(|e| format!("body: {e}"))?;
+                let _ = body.flow_control().release_capacity(b.len());
+                data.extend_from_slice(&b);
+            }
+            let tr = body.trailers().await.map_err(|e| format!("trailers: {e}"))?;
+            let mut grpc_status: Vec<Vec<u8>> = parts.headers.get_all("grpc-status").iter().map(|v| v.as_bytes().to_vec()).collect();
+            if let Some(t) = tr {
+                grpc_status.extend(t.get_all("grpc-status").iter().map(|v| v.as_bytes().to_vec()));
+            }
+            rt::quiesce().await;
+            seen.push(Seen {
+                http_status: parts.status.as_u16(),
+                content_type: parts.headers.get("content-type").map(|v| v.as_bytes().to_vec()),
+                grpc_status,
+                body: data,
+                log: log2.lock().unwrap().clone(),
+            });
+        }
+        ct.abort();
+        srv.abort();
+        Ok::<_, String>(seen)
+    });
+    let seen = match res {
+        Err(_) => bail!("C10/transport-never-completes", "requests over the served router did not complete"),
+        Ok(Err(e)) => bail!("C10/transport-error", "{e}"),
+        Ok(Ok(s)) => s,
+    };
+    for ((pq, _), s) in todo.iter().zip(seen.iter()) {
+        let near = nearness(reg, path_of(pq));
+        if near.any() {
+            o.nontrivial = true;
+        }
+        judge(reg, pq, &payload, s, near, "transport router")?;
+    }
+    Ok(())
+}
+
 pub fn run(c: &Case, o: &mut Outcome) -> Result<(), Failure> {
     // normalise the configuration (replay files / fuzz inputs may contain duplicates)
     let mut reg: Vec<(u8, u8)> = vec![];
@@ -624,6 +744,9 @@ pub fn run(c: &Case, o: &mut Outcome) -> Result<(), Failure> {
         if !reg.iter().any(|(j, _)| *j == i) {
             reg.push((i, w % N_WRAP));
         }
+    }
+    if let Some(mask) = c.transport {
+        return run_transport(c, &reg, mask, o);
     }
     let reg2 = second_order(&reg, c.perm);
     let payload = c.payload.bytes();
@@ -735,7 +858,7 @@ impl Prop for C10 {
     }
     fn fixed_cases(_t: Tier) -> Vec<Case> {
         let n = POOL.len() as u8;
-        let mk = |reg: Vec<(u8, u8)>, how: u8, perm: u8, form: u8, reqs: Vec<Req>| Case { reg, how, perm, form, reqs, payload: Blob::Hex("c10a".into()) };
+        let mk = |reg: Vec<(u8, u8)>, how: u8, perm: u8, form: u8, reqs: Vec<Req>| Case { reg, how, perm, form, reqs, payload: Blob::Hex("c10a".into()), transport: None };
         let mut v = vec![];
         // nothing registered
         v.push(mk(vec![], 0, 0, 0, all_exact()));
@@ -825,5 +948,5 @@ pub fn from_bytes(data: &[u8]) -> Option<Case> {
         }
         reqs.push(Req::P(p));
     }
-    Some(Case { reg, how, perm, form, reqs, payload: Blob::Hex("00ff".into()) })
+    Some(Case { reg, how, perm, form, reqs, payload: Blob::Hex("00ff".into()), transport: None })
 }
